@@ -79,7 +79,7 @@ def check_total(case):
         data[kw.get('cropping_box_key', 'cropping_bbox')] = (2, 2, 1, W - 2, H - 2, D - 1)
     try:
         pipe = A.Compose([getattr(A, name)(p=1.0, **kw)], **ckw)
-        random.seed(case['seed'])
+        R.seed(case['seed'])
         res = pipe(**copy.deepcopy(data))
     except NotImplementedError as e:
         return ('unsupported-target', str(e)[:120], None)
@@ -146,7 +146,9 @@ def run(seed=0, tier='quick', hints=None, broken=False):
         dual = issubclass(cls, A.DualTransform)
         for kw in cfgs:
             reps = 1 if tier == 'quick' and not broken else 3
-            for _ in range(reps):
+            # then the same configuration with every draw at an end point of its range (implrun.seed)
+            patterns = [0x0000, 0xFFFF, 0x5555, 0xAAAA] + ([] if tier == 'quick' else [rng.getrandbits(16) for _ in range(8)])
+            for ext in [None] * reps + patterns:
                 dt = rng.choice(dts)
                 targets = ['mask', 'masks', 'dicom'] + (['keypoints'] if name not in ('BBoxSafeRandomCrop', 'RandomSizedBBoxSafeCrop', 'GridDropout') else []) \
                     + (['bboxes'] if name not in ('CoarseDropout', 'GridDropout') else [])
@@ -156,6 +158,8 @@ def run(seed=0, tier='quick', hints=None, broken=False):
                     channels = None
                 case = {'name': name, 'kw': jsonable(kw), 'shape': [12, 10, 8], 'seed': rng.randint(0, 10 ** 6),
                         'dtype': dt, 'channels': channels, 'targets': targets, 'float_header': rng.random() < 0.5}
+                if ext is not None:
+                    case['seed'] = R.EXT_BASE + ext
                 bad = check_total(case)
                 evals += 1
                 seen.add((name, repr(sorted(kw)), dt))
